@@ -20,7 +20,7 @@
 EXTENDS MonBase
 VARIABLES l, st
 vars == <<l, st>>
-St0(t, i) == [tr |-> t, spk |-> <<>>, cb |-> <<>>, P |-> EmptyFn, D |-> EmptyFn, units |-> EmptyFn, groups |-> <<>>, rep |-> <<>>, nrep |-> 0,
+St0(t, i) == [tr |-> t, spk |-> <<>>, cb |-> <<>>, P |-> EmptyFn, D |-> EmptyFn, units |-> EmptyFn, groups |-> <<>>, rep |-> <<>>, repret |-> <<>>, nrep |-> 0,
               skip |-> "", at |-> i]
 Init == l = 1 /\ st = St0("none", 0)
 Q(f, k) == IF k \in DOMAIN f THEN f[k] ELSE <<>>
@@ -62,7 +62,8 @@ OnEOF(s, e, i) ==
          RepIf(Q(s.D, "parserObsDs") # Q(s.D, "base2"), s0, V("parser-data-with-skip-false-changes-output", s0,
                   [nobs |-> Len(Q(s.D, "parserObsDs")), nbase |-> Len(Q(s.D, "base2"))]))
     [] e.run = "parserRep" ->
-         RepIf(s.rep # [k \in 1..s.nrep |-> k - 1], s0, V("replacing-parser-output-not-delivered-exactly", s0, [n |-> s.nrep, got |-> Len(s.rep)]))
+         \* what is delivered: the data the parser returned (one or two per unit), in order, each with the content it had when it was returned
+         RepIf(s.rep # s.repret, s0, V("replacing-parser-output-not-delivered-exactly", s0, [n |-> Len(s.repret), got |-> Len(s.rep)]))
     [] OTHER -> s0
 
 Step(s, e, i) ==
@@ -73,9 +74,9 @@ Step(s, e, i) ==
     [] e.ev = "skipcb" -> [s EXCEPT !.cb = Append(s.cb, e)]
     [] e.ev = "packet" -> [s EXCEPT !.P = SetFn(s.P, e.run, Append(Q(s.P, e.run), e.hdg))]
     [] e.ev = "deliver" ->
-         IF e.run = "parserRep" THEN [s EXCEPT !.rep = Append(s.rep, IF e.kind = "custom" THEN e.pid ELSE -1)]
+         IF e.run = "parserRep" THEN [s EXCEPT !.rep = Append(s.rep, e.dg)]
          ELSE [s EXCEPT !.D = SetFn(s.D, e.run, Append(Q(s.D, e.run), e.dg))]
-    [] e.ev = "parsecb" -> IF e.run = "parserObs" THEN [s EXCEPT !.groups = Append(s.groups, e)] ELSE [s EXCEPT !.nrep = s.nrep + 1]
+    [] e.ev = "parsecb" -> IF e.run = "parserObs" THEN [s EXCEPT !.groups = Append(s.groups, e)] ELSE [s EXCEPT !.nrep = s.nrep + 1, !.repret = s.repret \o e.ret]
     [] e.ev = "eof" -> OnEOF(s, e, i)
     [] e.ev = "parsekept" -> RepIf(e.changed # 0, s, V("unit-handed-to-parser-changed-afterwards", s, [groups |-> e.groups, changed |-> e.changed]))
     [] e.ev = "hang" -> Rep(s, V("no-end-of-stream", s, [run |-> e.run]))
